@@ -44,8 +44,18 @@ fn spawn() -> Kid {
     Kid { child, stdin, lines: rx }
 }
 
+static HANGS: std::sync::atomic::AtomicUsize = std::sync::atomic::AtomicUsize::new(0);
+
+/// number of operations that did not return so far in this run
+pub fn hangs() -> usize { HANGS.load(std::sync::atomic::Ordering::SeqCst) }
+
+/// after this many hangs a suite stops feeding the child (each hang costs a time-out)
+pub const MAX_HANGS: usize = 12;
+
 pub fn guarded(op: &str, input: &[u8]) -> Outcome {
-    guarded_timeout(op, input, std::time::Duration::from_secs(120))
+    // generous for the first few (a 1 MiB brotli level 11 round trip takes seconds), short once hanging is established
+    let secs = if hangs() < 3 { 60 } else { 5 };
+    guarded_timeout(op, input, std::time::Duration::from_secs(secs))
 }
 
 pub fn guarded_timeout(op: &str, input: &[u8], limit: std::time::Duration) -> Outcome {
@@ -63,6 +73,7 @@ pub fn guarded_timeout(op: &str, input: &[u8], limit: std::time::Duration) -> Ou
             let _ = kid.child.kill();
             let _ = kid.child.wait();
             *g = None;
+            HANGS.fetch_add(1, std::sync::atomic::Ordering::SeqCst);
             return Outcome::Hang;
         }
         Err(_) => {
@@ -87,6 +98,8 @@ pub fn child_main() {
     unsafe {
         let lim = libc::rlimit { rlim_cur: 3 << 30, rlim_max: 3 << 30 };
         libc::setrlimit(libc::RLIMIT_AS, &lim);
+        // do not outlive the harness (a spinning scenario would otherwise keep a core busy for ever)
+        libc::prctl(libc::PR_SET_PDEATHSIG, libc::SIGKILL);
     }
     quiet_panics();
     let stdin = std::io::stdin();
